@@ -291,14 +291,18 @@ func (t *MessageContainer) MarshalTL(e *tl.Encoder) error {
 
 func (t *MessageContainer) UnmarshalTL(d *tl.Decoder) error {
 	count := int(d.PopInt())
-	arr := make([]*messages.Encrypted, count)
+	arr := make([]*messages.Encrypted, 0)
 	for i := 0; i < count; i++ {
 		msg := new(messages.Encrypted)
 		msg.MsgID = d.PopLong()
 		msg.SeqNo = d.PopInt()
 		size := d.PopInt()
 		msg.Msg = d.PopRawBytes(int(size))
-		arr[i] = msg
+		if msg.Msg == nil {
+			// the decoder ran out of data or refused the size; it keeps the error for the caller
+			break
+		}
+		arr = append(arr, msg)
 	}
 	*t = arr
 
